@@ -14,7 +14,7 @@ import numpy as np
 import torch
 
 import pytorch_wavelets as pw
-from pytorch_wavelets import _verif
+from .hooks import _verif
 from pytorch_wavelets.dtcwt import coeffs
 from pytorch_wavelets.dwt.transform2d import SWTForward
 
